@@ -551,6 +551,35 @@ func runC07(c *Ctx) {
 					}
 				}
 			}
+			// and the other way round: every path that keeps a smaller hop limit has tested the destination as not link-local
+			if phi, ok := args[1].(*ssa.Phi); ok && st == core.Proved {
+				for i, e := range phi.Edges {
+					cv, isC := e.(*ssa.Const)
+					if !isC || cv.Int64() == 255 {
+						continue
+					}
+					pred := phi.Block().Preds[i]
+					conj := pathDNF(pred)
+					if len(conj) == 0 {
+						conj = []string{""}
+					}
+					edge := ""
+					if iff, isIf := pred.Instrs[len(pred.Instrs)-1].(*ssa.If); isIf {
+						if pred.Succs[1] == phi.Block() {
+							edge = "!" + norm(iff.Cond)
+						} else {
+							edge = norm(iff.Cond)
+						}
+					}
+					for _, cj := range conj {
+						full := cj + " && " + edge
+						if !strings.Contains(full, "!(net/netip.Addr).IsLinkLocalUnicast(local(dstAddr).IP)") || !strings.Contains(full, "!(net/netip.Addr).IsLinkLocalMulticast(local(dstAddr).IP)") {
+							st = core.Violated
+							det = fmt.Sprintf("hop limit %d is kept on a path that has not established that the destination is neither link-local unicast nor link-local multicast: %s", cv.Int64(), strings.Trim(full, " &"))
+						}
+					}
+				}
+			}
 			r.Add(core.Obligation{Rule: "hop-limit", Key: "hop-limit icmp6SendPacket", Func: core.FuncName(fn), Pos: c.P.Pos(core.PosOf(s.(ssa.Instruction))), Status: st,
 				Basis: "hop limit is 255 on the edge taken for link-local unicast/multicast destinations", Detail: det})
 		}
